@@ -14,15 +14,13 @@
   Years 1 and 9999 are excluded only because the weekday search may leave datetime's range there.
 -/
 import DateutilVerif.Proofs.TzStr
+import DateutilVerif.Proofs.TzStrTableM
+import DateutilVerif.Proofs.TzStrTableJ
+import DateutilVerif.Proofs.TzStrTableN
+import DateutilVerif.Proofs.TzStrTableH
 
 namespace C08
 open TzStr Posix
-
-/-- the `Attr` the parser produces for a rule with an explicit `/time` -/
-def attrOf : Rule → Option Int → Attr
-  | .M m w d, t => { month := some m, week := some (if w == 5 then -1 else w), weekday := some (Py.fmod (d - 1) 7), time := t }
-  | .J n, t => { jyday := some n, time := t }
-  | .N n, t => { yday := some (n + 1), time := t }
 
 /-- rule numbers in POSIX range (`n = 365` of the zero-based form is at the year boundary and
     excluded by the property's own quantifier) -/
@@ -100,6 +98,48 @@ theorem no_dst_part_is_fixed (s : String) (posix : Bool) (z : Zone) (h : tzstr s
   all_goals (try (cases h; done))
   all_goals (injection h with h; subst h)
   all_goals simp_all [transitions]
+
+
+/-- **C08 (tokenizer).** `re.split` with the TZ pattern loses nothing and yields no empty token:
+    for every string the tokens concatenate back to the input. -/
+theorem tokens_partition (s : String) :
+    ((tokens s).map String.toList).flatten = s.toList ∧ ∀ t ∈ tokens s, t ≠ "" :=
+  ⟨tokens_flatten s, tokens_nonempty s⟩
+
+/-- one row of the `GMT+h` / `UTC+h` table -/
+def gmtRow (utc plus posix : Bool) (h : Nat) : Bool :=
+  match tzstr ((if utc then "UTC" else "GMT") ++ (if plus then "+" else "-") ++ toString h) posix with
+  | .ok z => !z.hasdst && z.stdOff == (if plus == posix then -1 else 1) * (h : Int) * 3600 && z.dstAbbr.isNone
+  | .error _ => false
+
+/-- **C08 (GMT+h).** `GMT+h` / `UTC+h` (h = 0..24, either sign) are fixed zones h hours AHEAD of UTC,
+    and h hours BEHIND when POSIX interpretation is requested — the whole table, by kernel evaluation. -/
+theorem gmt_plus_h : ∀ utc plus posix : Bool, ∀ h : Fin 25, gmtRow utc plus posix h.val = true := by
+  decide +kernel
+
+
+/-! ### the string level: canonical spellings parse to the attributes `attrOf` names
+    (whole finite tables, by kernel evaluation of the model on the actual strings; the tables are
+    in `Proofs/TzStrTable*.lean`, one per file so that they build in parallel) -/
+
+/-- every `Mm.w.d` start rule (12 × 5 × 7 spellings) -/
+theorem parse_M_rule : ∀ m : Fin 12, ∀ w : Fin 5, ∀ d : Fin 7,
+    parsesTo ("AAA5BBB,M" ++ toString (m.val + 1) ++ "." ++ toString (w.val + 1) ++ "." ++ toString d.val ++ ",M10.5.0")
+      (attrOf (.M (m.val + 1) (w.val + 1) d.val) none) = true := tableM
+
+/-- every `Jn` start rule, n = 1..365 -/
+theorem parse_J_rule : ∀ n : Fin 365,
+    parsesTo ("AAA5BBB,J" ++ toString (n.val + 1) ++ ",M10.5.0") (attrOf (.J (n.val + 1)) none) = true := tableJ
+
+/-- every zero-based `n` start rule, n = 0..365 -/
+theorem parse_N_rule : ∀ n : Fin 366,
+    parsesTo ("AAA5BBB," ++ toString n.val ++ ",M10.5.0") (attrOf (.N n.val) none) = true := tableN
+
+/-- every whole-hour `/h` and `/hh` time of day, h = 0..24 -/
+theorem parse_rule_hour : ∀ h : Fin 25,
+    parsesTo ("AAA5BBB,M3.2.0/" ++ toString h.val ++ ",M10.5.0") (attrOf (.M 3 2 0) (some (h.val * 3600))) = true ∧
+    parsesTo ("AAA5BBB,M3.2.0/" ++ (if h.val < 10 then "0" else "") ++ toString h.val ++ ",M10.5.0")
+      (attrOf (.M 3 2 0) (some (h.val * 3600))) = true := tableH
 
 /-- the weekday search never moves by more than six days per step -/
 theorem weekdayJump_first_bounds (cur wd : Int) (hc : 0 ≤ cur ∧ cur < 7) (hw : 0 ≤ wd ∧ wd < 7) :
